@@ -206,9 +206,21 @@ func (t *T) next() bool {
 // simplest-first, so the first witnesses are the smallest ones.
 const perClauseCap = 2
 
+// ownHeading: clauses whose cause does not depend on how group keys are
+// formed keep their name also on streams with colliding group-by joins.
+func ownHeading(clause string) bool {
+	for _, c := range []string{"step.records-lost", "step.forward-stepper-with-absent-field", "step.ewma-default-d", "stats1-w.record-dropped",
+		"fraction.panic", "uniq.-n-o-name", "count-distinct.-n-o-name"} {
+		if clause == c {
+			return true
+		}
+	}
+	return strings.HasSuffix(clause, "-multifield") || strings.HasSuffix(clause, ".panic") || strings.HasSuffix(clause, ".fails")
+}
+
 // viol records a violation. clause: "verb.clause"; detail: flags and stream.
 func (t *T) viol(clause string, args []string, in []rec, what string, out string) {
-	if t.collision {
+	if t.collision && !ownHeading(clause) {
 		// the stream holds two different group-by tuples whose comma-joined texts coincide: report under one heading
 		clause = "group-text-collision." + strings.SplitN(clause, ".", 2)[0]
 	}
@@ -218,7 +230,7 @@ func (t *T) viol(clause string, args []string, in []rec, what string, out string
 	t.perClause[clause]++
 	if f := os.Getenv("VERIF_C10_DUMP"); f != "" {
 		if fh, err := os.OpenFile(f, os.O_APPEND|os.O_CREATE|os.O_WRONLY, 0644); err == nil {
-			fmt.Fprintf(fh, "%s\t%s\t%s\n", clause, what, cmdline(args, in))
+			fmt.Fprintf(fh, "%s\t%s\t%s\t%s(%s|%s)\n", clause, what, cmdline(args, in), clause, strings.Join(args, " "), streamText(in))
 			fh.Close()
 		}
 	}
